@@ -126,6 +126,17 @@ impl Timestamp {
     pub fn as_secs(self) -> (r: u32) ensures r == self.0 { self.0 }
     pub fn from_secs(secs: u32) -> (r: Timestamp) ensures r.0 == secs { Timestamp(secs) }
 }
+//@trusted T4 BufReadParsing::read_timestamp = read_be_u32().map(Timestamp::from_secs): the next four octets, big endian (read_be_u32 proved in U71)
+pub trait ReadTimestamp: io::BufRead + Sized {
+    fn read_timestamp(&mut self) -> (r: io::Result<Timestamp>)
+        ensures match r {
+            Ok(t) => (*old(self)).rest().len() >= 4 && be32(t.0) == (*old(self)).rest().subrange(0, 4) && (*final(self)).rest() == (*old(self)).rest().skip(4),
+            Err(_) => true };
+}
+impl<B: io::BufRead> ReadTimestamp for B {
+    #[verifier::external_body]
+    fn read_timestamp(&mut self) -> (r: io::Result<Timestamp>) { unimplemented!() }
+}
 #[derive(Clone, Copy)]
 pub struct Duration(pub u32);
 impl Duration {
